@@ -295,8 +295,11 @@ def main(mod, tier, seed, replay=None):
             undecided_msgs.append(f"obligation {r['id']} not discharged ({r['backend']}: unknown) and not refuted at finite scope")
 
     # ---------------- evidence
-    n_ob = len(results)
-    n_ok = sum(1 for r in results if r["verdict"] == "proved")
+    known_ob_ids = {key for k, key in known_hits if k.get("kind", "obligation") == "obligation"}
+    # obligations that match a recorded known finding are reported apart (they are red by record, not discharged)
+    counted = [r for r in results if r["id"] not in known_ob_ids]
+    n_ob = len(counted)
+    n_ok = sum(1 for r in counted if r["verdict"] == "proved")
     backends = {}
     for r in results:
         if r["verdict"] == "proved":
@@ -323,7 +326,8 @@ def main(mod, tier, seed, replay=None):
                          "scope": battery.get("scope"), "failures": len(bat_fail), "samples": battery.get("samples", [])[:3], "s": battery.get("s")} if battery else None),
             "undecided": undecided_msgs,
             "not_decided_by_this_check": list(getattr(mod, "UNDECIDED_PARTS", [])),
-            "known_findings_hit": [k["match"] for k, _ in known_hits],
+            "known_findings_hit": sorted({k["match"] for k, _ in known_hits}),
+            "known_finding_obligations_not_counted": sorted(known_ob_ids),
         },
         "assumptions": list(getattr(mod, "ASSUMPTIONS", [])),
         "wall_s": round(time.time() - t0, 2),
@@ -333,9 +337,9 @@ def main(mod, tier, seed, replay=None):
     # ---------------- verdict
     seen = set()
     for k, key in known_hits:
-        if k["match"] in seen:
+        if k["what"] in seen:
             continue
-        seen.add(k["match"])
+        seen.add(k["what"])
         print(f"KNOWN-FINDING: property={prop} {k['what']}")
     print(f"[{prop}] functions={len(info)} obligations={n_ob} proved={n_ok} battery_cases={battery.get('cases') if battery else 0} battery_failures={len(bat_fail)} canaries={[(c['canary'], c['killed']) for c in canaries]} wall={ev['wall_s']}s")
     for r in failed[:12]:
